@@ -95,9 +95,9 @@ where
   namesOk (seen : List GoString) : StructDecl → Bool
     | [] => true
     | f :: rest =>
-      if f.name = sID || f.api = [] then namesOk seen rest
+      if f.api = [] then namesOk seen rest
       else
-        let isField := f.isAttr || f.isRelTagged
+        let isField := f.name ≠ sID && (f.isAttr || f.isRelTagged)
         if (isField && (f.json = [] || f.json = idName)) || (f.json ≠ [] && seen.contains f.json) then false
         else namesOk (f.json :: seen) rest
 
@@ -247,4 +247,22 @@ def view (w : Wrapped) : Option ResView :=
   else none
 
 end Wrapped
+
+/-- sort a map's entries by key (unique keys: the order is determined) -/
+def Typ.sortByKey {β} (m : GoMap β) : GoMap β :=
+  m.mergeSort (fun a b => !(decide (b.1 < a.1)))
+
+/-- The struct declaration the harness builds (reflect.StructOf) for a type:
+ID, then attributes sorted by name, then relationships sorted by name. -/
+def declOfTyp (t : Typ) : StructDecl :=
+  let idf : SField := { name := sID, ty := .attr .string false, json := idName, api := t.name }
+  let afs := (Typ.sortByKey t.attrs).map (fun p =>
+    ({ name := [70], ty := (match Kind.ofCode? p.2.ty with | some k => .attr k p.2.nullable | none => .other 0 false),
+       json := p.2.name, api := sAttr } : SField))
+  let rfs := (Typ.sortByKey t.rels).map (fun p =>
+    ({ name := [70], ty := if p.2.toOne then .attr .string false else .strs, json := p.2.fromName,
+       api := sRelComma ++ p.2.toType ++ (if p.2.toName = [] then [] else comma :: p.2.toName) } : SField))
+  idf :: (afs ++ rfs)
+
+
 end Jsonapi
